@@ -115,6 +115,21 @@ Theorem C11_prune_complete :
 Proof. exact prune_complete_all. Qed.
 Print Assumptions C11_prune_complete.
 
+(** The same at the level of functions: when the matches are defined on nodes of the rule centre (as the search
+    engine guarantees; Python's sigma[p] would raise otherwise), every raw match m is m' o sigma^-1 for a kept match m'
+    and a label-preserving automorphism sigma of the rule centre (all node attributes except atom_map, all edge
+    attributes). *)
+Theorem C11_prune_complete_aut :
+  forall (X : Type) (key : X -> mapping) (rc : graph) (raw : list X),
+    simple_graph rc ->
+    (forall x p h, In x raw -> In (p, h) (key x) -> In p (node_ids rc)) ->
+    forall x, In x raw ->
+    exists y, In y (prune key rc raw) /\
+      exists s, is_automorphism n_full e_full rc s /\
+        forall p h, In (p, h) (key x) <-> exists p', In (p', h) (key y) /\ p = s p'.
+Proof. exact prune_complete_fun. Qed.
+Print Assumptions C11_prune_complete_aut.
+
 (** Clause 4, second half: hence every result function [res] (gluing the rule at a match, up to the identification
     used for "distinct") that depends only on the item set of a match and is invariant under the rule automorphisms
     takes exactly the same set of values on the kept matches as on all raw matches.  The invariance of gluing is
